@@ -8,6 +8,14 @@ import re
 
 RULES = [
     dict(
+        id="KF-C09-user-identifier-dunder-class",
+        property="C09",
+        desc="a user identifier spelled __class__ (variable, parameter, function/class/method name, alias): the lowering binds the real name __class__ in "
+        "every class loader and reads it in methods to emulate the zero-argument super() cell, so the user's binding is captured or clobbered "
+        "(PendingClassDef.get_result '__class__ := K'; PendingFunctionDef.get_result free __class__)",
+        match=lambda key, cfg, host, klass, detail: bool(re.match(r"c09:(matrix|local):__class__:", key)),
+    ),
+    dict(
         id="KF-C13-inplace-notimplemented",
         property="C13",
         desc="augmented assignment whose left operand has an in-place method that returns NotImplemented: the result is stored instead of "
